@@ -1,5 +1,3 @@
-import os
-
 CFG = {
     "id": "C07",
     "lean_theorems": "LeptosModel.Theorems.C07",
@@ -18,7 +16,6 @@ CFG = {
         "Leptos.Stream.C07_views_wellformed",
         "Leptos.Stream.C07_marker_ids",
         # refutations / witnesses (kernel-evaluated)
-        "Leptos.Stream.C07_in_order_full_false",
         "Leptos.Stream.C07_eb_inorder_witness",
         "Leptos.Stream.C07_eb_ooo_witness",
         "Leptos.Stream.C07_nested_suspend_witness",
@@ -76,6 +73,8 @@ CFG = {
         "the executor is drained between stream polls on the view level (stream polls while tasks are still runnable are not explored)",
         "u16 overflow of next_id (65535 boundaries in one builder) is not modelled; nonce feature, islands, mark_branches, extra_attrs, "
         "LocalResource are outside the view grammar (replace = false is covered on the builder level)",
+        "F-C07-2..5 are repaired by hooks/fix-c07-{2,3,4,5}.patch (fix: commits in /repo); the model follows the repaired code, the "
+        "old behaviour is kept as Builder.appendOld / inPlaceBufOld / compileOld with kernel-checked regression witnesses",
         "out-of-order document equality is NOT proved (C07_out_of_order_stmt, C07_fallback_until_ready_stmt are OPEN): it rests on "
         "the correspondence run and the kernel-evaluated instances",
     ],
@@ -86,11 +85,12 @@ CFG = {
                 "and at its end equal to, the fully resolved document, never panics (C07_in_order, _total, _prefix, _views); every "
                 "stream in either mode ends within a computed number of polls once all futures completed and poll_next's recursion "
                 "is bounded by a computed measure (C07_terminates); no empty chunk (C07_no_dup_no_drop); a not-ready future leaves "
-                "the pushed text untouched (C07_fallback_until_ready, step level); views outside three finding classes compile to "
-                "programs in the proved class (C07_views_wellformed). Out-of-order document equality is stated (C07_out_of_order_stmt) "
-                "but OPEN. Four defects found and reproduced on the real code (ErrorBoundary in-order mis-ordering and out-of-order "
-                "duplicate marker ids, nested Suspend under Suspense dropped, None-view in-place path deletes the fallback) = known "
-                "findings with kernel-checked witnesses; the reversed splice (F-C07-1) is shown to be API-misuse only. Tied to the "
+                "the pushed text untouched (C07_fallback_until_ready, step level); views compile to "
+                "programs in the proved class (C07_views_wellformed, now every view of the grammar incl. ErrorBoundary). Out-of-order "
+                "document equality is stated (C07_out_of_order_stmt) but OPEN. Four defects found and reproduced on the real code "
+                "(ErrorBoundary in-order mis-ordering and out-of-order duplicate marker ids, nested Suspend under Suspense dropped, "
+                "None-view in-place path deletes the fallback) were repaired by four fix: commits; the pre-repair behaviour is kept "
+                "as *Old definitions with kernel-checked regression witnesses; the reversed splice (F-C07-1) is API-misuse only. Tied to the "
                 "code by a differential run of the real StreamBuilder/Suspense/ErrorBoundary against the compiled model at builder "
                 "and view level, exhaustive over completion orders x poll interleavings for small shapes.",
         "design_ref": "DESIGN.md §7 C07",
@@ -98,37 +98,3 @@ CFG = {
         "technique": "Lean 4 proof (step invariants + termination measure over all schedules) + refutation witnesses + differential correspondence",
     },
 }
-
-
-def _merge_proposed_known(core):
-    """known_findings.txt is owned by the lead; until the proposed C07 lines (props/C07.known, same format) are moved
-    there they are read from here as well.  Nothing is written."""
-    import re
-    if getattr(core, "_c07_known_merged", False):
-        return
-    orig = core.load_known
-
-    def load_known(pid):
-        known, fixed = orig(pid)
-        path = os.path.join(core.VERIF, "props", "C07.known")
-        if pid == "C07" and os.path.exists(path):
-            for line in open(path):
-                m = re.match(r"known:\s+property=(\S+)\s+class=(\S+)\s+(.*)", line.strip())
-                if m and m.group(1) == pid:
-                    known.setdefault(m.group(2), m.group(3))
-        return known, fixed
-
-    core.load_known = load_known
-    core._c07_known_merged = True
-
-
-def replay(path):
-    from vlib import core
-    _merge_proposed_known(core)
-    return core.replay(CFG, path)
-
-
-def run(tier, seed):
-    from vlib import core
-    _merge_proposed_known(core)
-    return core.run_check(CFG, tier, seed)
